@@ -224,6 +224,7 @@ func init() {
 			complete := true
 			eval := func(c c09Case) {
 				r.Evals.Add(1)
+				r.Journal(c)
 				r.Transitions.Add(3)
 				ok, sig, detail := c09Eval(c)
 				if c.Shape == 0 {
